@@ -137,7 +137,7 @@ def vmodelTuple (isComponent : Bool) (attrValue : Node) (argument : Option Node)
         let argument := if argument.isNone then some second else argument
         match (plainElem elems 2).bind arrayElems with
         | some mods => (st, v, argument, some (parseModifiers mods))
-        | none => (st, v, argument, none)
+        | none => (st, v, argument, some (setOfList rest))
     | none => (st, v, nullArg argument, some (setOfList rest))
   | none => (st, attrValue, argument, some (setOfList rest))
 
@@ -248,7 +248,7 @@ def normalTuple (value : Node) (argument : Option Node) (rest : List String) : N
           let argument := if argument.isNone then some second else argument
           match (plainElem elems 2).bind arrayElems with
           | some mods => (v, argument, some (parseModifiers mods))
-          | none => (v, argument, none)
+          | none => (v, argument, some (setOfList rest))
       | none => (v, argument, some (setOfList rest))
     | none => (e, argument, some (setOfList rest))
   | none => (if value.kind = .str then value else nVoid0, argument, some (setOfList rest))
